@@ -289,9 +289,6 @@ def run_case(case):
         res['inconclusive'] = 'law extraction bound: %r' % (e,)
         return res
     except Exception as e:
-        from ..runner import CaseTimeout
-        if isinstance(e, CaseTimeout):
-            raise
         import traceback
         tb = traceback.extract_tb(e.__traceback__)
         inside = any('/EoN/' in f.filename for f in tb)
